@@ -52,6 +52,7 @@ using RunFn = std::function<Verdict(const Case &)>;
 // would make the solo / interleaved / fresh-instance comparisons agree with each other for the wrong reason), and a crash of
 // the code under test becomes an ordinary failing verdict that rapidcheck can shrink.
 #include <sys/wait.h>
+#include <ctime>
 #include <unistd.h>
 // true inside a child created by run_isolated (and in --replay mode): oracles that compare two instances may then put each
 // instance into a process of its own (digests_in_child), so that not even function-local statics are shared between them
@@ -96,45 +97,90 @@ inline uint64_t ev_digest(const std::vector<Ev> &e) {
     return h;
 }
 
-inline Verdict run_isolated(const RunFn &run, const Case &c) {
-    int fd[2];
-    if (pipe(fd) != 0) return run(c);
-    fflush(stdout); fflush(stderr);
-    pid_t pid = fork();
-    if (pid < 0) { close(fd[0]); close(fd[1]); return run(c); }
-    if (pid == 0) {
-        close(fd[0]);
-        in_isolated_child() = true;
-        Verdict v = run(c);
-        std::string out = std::string(v.ok ? "1" : "0") + "\n" + (v.nontrivial ? "1" : "0") + "\n" + v.sig + "\n" + std::to_string(v.trace_digest) + "\n";
-        std::string why = v.why;
-        for (auto &ch : why) if (ch == '\n') ch = ' ';
-        out += why + "\n";
-        for (auto &k : v.classes) out += k + "\x1f";
-        out += "\n";
-        size_t off = 0;
-        while (off < out.size()) { ssize_t w = write(fd[1], out.data() + off, out.size() - off); if (w <= 0) break; off += (size_t)w; }
-        _exit(0);
-    }
-    close(fd[1]);
-    std::string data;
-    char buf[4096];
-    for (;;) { ssize_t r = read(fd[0], buf, sizeof buf); if (r <= 0) break; data.append(buf, (size_t)r); }
-    close(fd[0]);
-    int status = 0;
-    waitpid(pid, &status, 0);
-    Verdict v;
+// ---- pristine zygote -------------------------------------------------------------------------------------------------------
+// Most generated cases run in the runner process itself, so that process is NOT pristine (a function-local static introduced into
+// the code under test keeps whatever earlier cases left in it). Isolated evaluations therefore do not fork from the runner but from
+// a zygote that is forked at the very start of main(), before any code under test has run, and that never runs any itself: it only
+// forks one child per request. The child parses the case, evaluates it and sends the verdict back.
+struct Zygote { int req = -1, resp = -1; pid_t pid = -1; };
+inline Zygote &zygote() { static Zygote z; return z; }
+inline std::string verdict_to_wire(const Verdict &v) {
+    std::string why = v.why;
+    for (auto &ch : why) if (ch == '\n') ch = ' ';
+    std::string out = std::string(v.ok ? "1" : "0") + "\n" + (v.nontrivial ? "1" : "0") + "\n" + v.sig + "\n" + std::to_string(v.trace_digest) + "\n" + why + "\n";
+    for (auto &k : v.classes) out += k + "\x1f";
+    return out + "\n";
+}
+inline bool verdict_from_wire(const std::string &data, Verdict &v) {
     std::vector<std::string> lines;
     { std::istringstream is(data); std::string l; while (std::getline(is, l)) lines.push_back(l); }
-    if (WIFEXITED(status) && WEXITSTATUS(status) == 0 && lines.size() >= 6) {
-        v.ok = lines[0] == "1"; v.nontrivial = lines[1] == "1"; v.sig = lines[2]; v.trace_digest = strtoull(lines[3].c_str(), nullptr, 10); v.why = lines[4];
-        std::istringstream cs(lines[5]); std::string k;
-        while (std::getline(cs, k, '\x1f')) if (!k.empty()) v.classes.push_back(k);
+    if (lines.size() < 6) return false;
+    v.ok = lines[0] == "1"; v.nontrivial = lines[1] == "1"; v.sig = lines[2]; v.trace_digest = strtoull(lines[3].c_str(), nullptr, 10); v.why = lines[4];
+    std::istringstream cs(lines[5]); std::string k;
+    while (std::getline(cs, k, '\x1f')) if (!k.empty()) v.classes.push_back(k);
+    return true;
+}
+inline bool write_all(int fd, const void *p, size_t n) { const char *c = (const char *)p; while (n) { ssize_t w = write(fd, c, n); if (w <= 0) return false; c += w; n -= (size_t)w; } return true; }
+inline bool read_all(int fd, void *p, size_t n) { char *c = (char *)p; while (n) { ssize_t r = read(fd, c, n); if (r <= 0) return false; c += r; n -= (size_t)r; } return true; }
+inline bool send_msg(int fd, const std::string &s) { uint32_t n = (uint32_t)s.size(); return write_all(fd, &n, 4) && write_all(fd, s.data(), n); }
+inline bool recv_msg(int fd, std::string &s) { uint32_t n; if (!read_all(fd, &n, 4)) return false; s.resize(n); return n == 0 || read_all(fd, &s[0], n); }
+
+// call first thing in main() (not in replay mode, not under ThreadSanitizer)
+inline void zygote_start(Verdict (*run)(const Case &)) {
+    if (getenv("VERIF_NO_ISOLATE")) return;
+#if defined(FLAVOUR_TSAN)
+    return;
+#endif
+    int rq[2], rs[2];
+    if (pipe(rq) != 0 || pipe(rs) != 0) return;
+    fflush(stdout); fflush(stderr);
+    pid_t pid = fork();
+    if (pid < 0) return;
+    if (pid == 0) {   // the zygote: pristine forever
+        close(rq[1]); close(rs[0]);
+        std::string text;
+        while (recv_msg(rq[0], text)) {
+            int cfd[2];
+            if (pipe(cfd) != 0) { send_msg(rs[1], "CRASH pipe"); continue; }
+            pid_t ch = fork();
+            if (ch == 0) {
+                close(cfd[0]); close(rq[0]); close(rs[1]);
+                Case c;
+                Case::from_text(text, c);
+                CurrentScope scope(c);
+                in_isolated_child() = true;
+                Verdict v = run(c);
+                std::string out = verdict_to_wire(v);
+                write_all(cfd[1], out.data(), out.size());
+                _exit(0);
+            }
+            close(cfd[1]);
+            std::string data;
+            char buf[4096];
+            for (;;) { ssize_t r = read(cfd[0], buf, sizeof buf); if (r <= 0) break; data.append(buf, (size_t)r); }
+            close(cfd[0]);
+            int status = 0;
+            waitpid(ch, &status, 0);
+            if (WIFEXITED(status) && WEXITSTATUS(status) == 0 && !data.empty()) send_msg(rs[1], data);
+            else send_msg(rs[1], WIFSIGNALED(status) ? fmt("CRASH signal %d", WTERMSIG(status)) : fmt("CRASH exit %d", WIFEXITED(status) ? WEXITSTATUS(status) : -1));
+        }
+        _exit(0);
+    }
+    close(rq[0]); close(rs[1]);
+    zygote().req = rq[1]; zygote().resp = rs[0]; zygote().pid = pid;
+}
+inline Verdict run_isolated(const RunFn &run, const Case &c) {
+    Zygote &z = zygote();
+    if (z.pid <= 0) return run(c);     // no zygote (ThreadSanitizer build, or isolation switched off)
+    Verdict v;
+    std::string resp;
+    if (!send_msg(z.req, c.to_text()) || !recv_msg(z.resp, resp)) { z.pid = -1; return run(c); }
+    if (resp.compare(0, 5, "CRASH") == 0) {
+        v.ok = false; v.sig = "crash";
+        v.why = "the case crashed a freshly started process (" + resp.substr(6) + "): sanitizer report or abort, see the log";
         return v;
     }
-    v.ok = false; v.sig = "crash";
-    v.why = WIFSIGNALED(status) ? fmt("the case crashed the process (signal %d); see the sanitizer report in the log", WTERMSIG(status))
-                                : fmt("the case made the process exit with status %d (sanitizer report or abort); see the log", WIFEXITED(status) ? WEXITSTATUS(status) : -1);
+    if (!verdict_from_wire(resp, v)) { v.ok = false; v.sig = "crash"; v.why = "no verdict came back from the fresh process"; }
     return v;
 }
 
@@ -152,11 +198,14 @@ inline bool run_cases(const Args &a, Evidence &ev, const std::string &name, long
     md.id = name; md.description = name;
     bool failed_once = false, failed_isolated = false;
     long evaluated = 0;
+    time_t t_failed = 0;
+    const long shrink_budget_s = a.quick() ? 40 : 150;
     FILE *digest_file = a.digests.empty() ? nullptr : fopen((a.digests + "." + name).c_str(), "w");
     if (a.dump_index >= 0) params.maxSuccess = (int)a.dump_index + 1;
     auto result = rc::detail::checkTestable([&] {
         Case c = *gen;
         CurrentScope scope(c);
+        if (failed_once && time(nullptr) - t_failed > shrink_budget_s) return;   // shrinking budget used up: remaining candidates are not tried (counts as "does not fail")
         // a sample of the cases (evenly spread, about a.isolate_n per part and shard) runs in a forked child; a failing case keeps
         // being evaluated the way it failed, so that shrinking sees the same behaviour
         bool iso = a.isolate && (failed_once ? failed_isolated : (a.isolate_n > 0 && evaluated % std::max<long>(1, n / a.isolate_n) == 0));
@@ -167,6 +216,14 @@ inline bool run_cases(const Args &a, Evidence &ev, const std::string &name, long
         }
         Verdict v = iso ? run_isolated(run, c) : run(c);
         if (digest_file && !failed_once) fprintf(digest_file, "%016llx %016llx\n", (unsigned long long)c.digest(), (unsigned long long)v.trace_digest);
+        if (!v.ok && !iso && a.isolate && !failed_once) {
+            // A case is self-contained: if it only fails after other cases have run in this process, the code under test keeps
+            // process-wide state between "instances" (a function-local static, a cache). That is not a violation by this case -
+            // it is reported in the evidence and the search goes on; a genuine violation reproduces in the fresh process.
+            Verdict v2 = run_isolated(run, c);
+            if (v2.ok) { ev.count(name + ":failed-only-with-state-of-earlier-cases(not-counted)"); v = v2; }
+            else { v = v2; iso = true; }
+        }
         if (!v.ok && !failed_once) failed_isolated = iso;
         if (iso && !failed_once) ev.count(name + ":evaluated-in-a-fresh-process");
         if (!v.ok && !v.sig.empty() && a.known.count(v.sig)) {   // listed known finding: excluded, counted, search goes on
@@ -178,6 +235,7 @@ inline bool run_cases(const Args &a, Evidence &ev, const std::string &name, long
             for (auto &k : v.classes) ev.count(name + ":" + k);
         }
         if (!v.ok) {
+            if (!failed_once) t_failed = time(nullptr);
             failed_once = true;
             write_file(a.failing, "# " + name + ": " + v.why + "\n# sig=" + (v.sig.empty() ? "-" : v.sig) + "\n" + c.to_text());
             RC_FAIL(v.why);
